@@ -83,9 +83,11 @@ def replay(path):
 
 MANIFEST = dict(
     category="proof",
-    technique="Lean 4 theorem subst_narrows (partial) + outcome correspondence + narrowing search on the real code",
-    text="Theorems in Props/C05.lean state that every value accepted by the result of a successful plain substitution is accepted "
-         "by the original (partial: NoFloatRevalue excludes K7, proved per constructor as listed in the evidence); tie: "
-         "substitution outcome and validator verdict correspondences; search: generated / boundary / perturbed probes on the real code.",
-    note="Partial: the full statement is false of the code (K7: re-substituting a close float re-centres the tolerance window). "
-         "Trusted: Lean kernel + standard axioms, hand models (sampling tie), codec.")
+    technique="Lean 4 theorem subst_narrows (mutual induction over the substitution model) + outcome correspondence + narrowing "
+              "search on the real code",
+    text="Theorem subst_narrows (Props/C05.lean): for every schema S, plain value v and value w, if S % v = S' then S' "
+         "accepts w implies S accepts w — at every nesting depth, all list forms, dicts, unions, aliases and custom types; "
+         "subst_narrows_float_counterexample shows the excluded case. Tie: substitution outcome and validator verdict "
+         "correspondences; search: generated / boundary / perturbed probes on the real code.",
+    note="Partial: NoFixedFloat — the full statement is false of the code (K7: re-substituting a close float re-centres "
+         "the tolerance window). Trusted: Lean kernel + standard axioms, hand models (sampling tie), codec.")
